@@ -309,7 +309,7 @@ class CTxWitness(ImmutableSerializable):
     __slots__ = ['vtxinwit']
 
     def __init__(self, vtxinwit=()):
-        object.__setattr__(self, 'vtxinwit', vtxinwit)
+        object.__setattr__(self, 'vtxinwit', tuple(vtxinwit))
 
     def is_null(self):
         for n in range(len(self.vtxinwit)):
